@@ -801,6 +801,15 @@ def check_repr_table(ctx):
                  kind='correspondence')
 
 
+def check_double_table(ctx):
+    """the `doubleTable` of the Lean model ((k/12).as_integer_ratio()) against CPython"""
+    tab = ctx.driver.one(dict(p='C18', op='doubles'))
+    bad = [(k, n, d) for k, n, d in tab if (int(n), int(d)) != (k / 12).as_integer_ratio()]
+    if len(tab) != 49 or bad:
+        ctx.fail('C18|double-table', f'doubleTable of the Lean model differs from CPython: {bad[:3]}', dict(stream='ops', actual=bad),
+                 kind='correspondence')
+
+
 def run(ctx):
     ctx.rule = ('generated files: 35 tabulated space-group settings (P/A/B/C/I/F/R, translations 1/2 1/3 2/3 1/4 3/4 1/6 5/6, fractions and '
                 'dyadic decimals, upper/lower case) plus random operators (8 row types x 8 translations, before/after, any LATT); each of '
@@ -812,6 +821,7 @@ def run(ctx):
                        'atom labels unique',
                        'temperature: TEMP + 273.15 > 0.0005 K (hypothesis AboveZeroK of temp_spec)']
     check_repr_table(ctx)
+    check_double_table(ctx)
     cases = []
     # every tabulated setting with everything present, and with each optional instruction absent in turn
     for st in SETTINGS:
